@@ -412,6 +412,7 @@ def s3(ctx, taint, off):
     n = 0
     # callee summaries: parameters that reach a modulus position without a local non-zero fact
     summ = {}
+    summ_all = {}
     for k, f in prog.funcs.items():
         if not f.get('body') or 'RFC4880' in f['file']:
             continue
@@ -423,10 +424,12 @@ def s3(ctx, taint, off):
             m = ev[1]
             mn = T.node(m)
             st = a.instate[nid]
-            if mn[0] == 'param' and not nonzero_fact(a, st, m):
+            if mn[0] == 'param':
                 idx = [i for i, p in enumerate(f['params']) if p['n'] == mn[1]]
                 if idx:
-                    summ.setdefault(k, set()).add(idx[0])
+                    summ_all.setdefault(k, set()).add(idx[0])
+                    if not nonzero_fact(a, st, m):
+                        summ.setdefault(k, set()).add(idx[0])
     for k, f in prog.funcs.items():
         if not f.get('body') or k not in off or 'RFC4880' in f['file']:
             continue
@@ -451,6 +454,13 @@ def s3(ctx, taint, off):
                 ctx.bad('S3', key, 'value read from the stream is used as modulus/divisor by %s without a non-zero check (GMP raises SIGFPE on zero)' % fname, f, line=line)
         for nid, ev in list(a.all_events('call')):
             fid, args, line = ev[4], ev[2], ev[3]
+            for i in summ_all.get(fid, ()):
+                if i < len(args) and wire_direct(a, args[i]) and i not in summ.get(fid, ()):
+                    key = 'S3:%s->%s:%d' % (f['q'], ev[1], i)
+                    if key not in seen:
+                        seen.add(key)
+                        n += 1
+                        ctx.ok('S3', key, 'wire value passed as modulus: %s refuses zero before dividing' % ev[1], f, line=line)
             for i in summ.get(fid, ()):
                 if i < len(args) and wire_direct(a, args[i]):
                     key = 'S3:%s->%s:%d' % (f['q'], ev[1], i)
@@ -464,6 +474,7 @@ def s3(ctx, taint, off):
                     else:
                         ctx.bad('S3', key, 'value read from the stream is passed to %s, which divides by it without a non-zero check' % ev[1], f, line=line)
     ctx.info['S3_sites'] = n
+    ctx.floor('S3', n, 10)
 
 
 # ---------------------------------------------------------------------------------- S4
